@@ -1,8 +1,11 @@
-(* C09 proofs, part 6: the recorded finding classes are genuine failures of the property.  Each
-   witness is a history as the real database answered it (the observations are those printed by
-   harness/src/bin/c09.rs for the witness lines of known_findings.d/C09.json, re-run on every
-   check): the implementation model reproduces it, the reference refuses it, and the history is in
-   the stated class. *)
+(* C09 proofs, part 6: the recorded finding classes on their witnesses.  Each witness is a history
+   as the real database answered it (the observations are those printed by harness/src/bin/c09.rs
+   for the witness lines of known_findings.d/C09.json, re-run on every check).
+   - open classes (1, 2, 3, 4, 10, 15): the implementation model reproduces the history, the
+     reference refuses it, and the history is in the stated class: genuine failures of the property;
+   - repaired classes (11, 12, 13, 14, 16, 17, 18, 19): the same witness lines, answered by the
+     repaired database: the model reproduces the answers, the reference accepts them, and no open
+     class is reported. *)
 From Coq Require Import ZArith List Bool.
 From TV Require Import Corr.C09.
 Import ListNotations.
@@ -23,19 +26,19 @@ Definition wit_11 : case :=
      (SDel TP (Some (ECmp CEq (ECol 1) (ELit (VInt 5)))), HObs true [] []);
      (SIns TP [[(VInt 1); (VInt 6)]], HObs true [[(VInt 1); (VInt 6)]] []);
      (SDel TP (Some (ECmp CEq (ECol 1) (ELit (VInt 5)))), HObs true [[(VInt 1); (VInt 6)]] []);
-     (SIns TP [[(VInt 1); (VInt 7)]], HObs true [[(VInt 1); (VInt 6)]; [(VInt 1); (VInt 7)]] [])].
+     (SIns TP [[(VInt 1); (VInt 7)]], HObs false [[(VInt 1); (VInt 6)]] [])].
 Definition wit_12 : case :=
   Hist (mkSch [(mkCol 1 false None None); (mkCol 2 false None None)] []) [(SIns TP [[(VInt 1); (VInt 5)]], HObs true [[(VInt 1); (VInt 5)]] []);
      (SIns TP [[(VInt 2); (VInt 6)]], HObs true [[(VInt 1); (VInt 5)]; [(VInt 2); (VInt 6)]] []);
-     (SUpd TP [(1%nat, (VInt 7))] None, HObs true [[(VInt 1); (VInt 7)]; [(VInt 2); (VInt 7)]] [])].
+     (SUpd TP [(1%nat, (VInt 7))] None, HObs false [[(VInt 1); (VInt 5)]; [(VInt 2); (VInt 6)]] [])].
 Definition wit_13 : case :=
   Hist (mkSch [(mkCol 2 false None None); (mkCol 0 false None None)] []) [(SIns TP [[(VInt 1); (VInt 5)]], HObs true [[(VInt 1); (VInt 5)]] []);
      (SUpd TP [(0%nat, (VInt 2))] None, HObs true [[(VInt 2); (VInt 5)]] []);
-     (SIns TP [[(VInt 2); (VInt 6)]], HObs true [[(VInt 2); (VInt 5)]; [(VInt 2); (VInt 6)]] [])].
+     (SIns TP [[(VInt 2); (VInt 6)]], HObs false [[(VInt 2); (VInt 5)]] [])].
 Definition wit_14 : case :=
   Hist (mkSch [(mkCol 1 false None None); (mkCol 0 false None None)] []) [(SIns TP [[(VInt 5); (VInt 1)]], HObs true [[(VInt 5); (VInt 1)]] []);
      (SUpd TP [(0%nat, (VInt 7))] (Some (ECmp CEq (ECol 0) (ELit (VInt 5)))), HObs true [[(VInt 7); (VInt 1)]] []);
-     (SUpd TP [(1%nat, (VInt 2))] (Some (ECmp CEq (ECol 0) (ELit (VInt 7)))), HObs true [[(VInt 7); (VInt 1)]] [])].
+     (SUpd TP [(1%nat, (VInt 2))] (Some (ECmp CEq (ECol 0) (ELit (VInt 7)))), HObs true [[(VInt 7); (VInt 2)]] [])].
 Definition wit_15 : case :=
   Hist (mkSch [(mkCol 1 false None None)] [(mkCol 1 false None None); (mkCol 0 false None (Some (mkFk 0 0)))]) [(SIns TP [[(VInt 1)]], HObs true [[(VInt 1)]] []);
      (SIns TC [[(VInt 1); (VInt 1)]], HObs true [[(VInt 1)]] [[(VInt 1); (VInt 1)]]);
@@ -44,23 +47,24 @@ Definition wit_16 : case :=
   Hist (mkSch [(mkCol 1 false None None)] [(mkCol 1 false None None); (mkCol 0 false None (Some (mkFk 0 1)))]) [(SIns TP [[(VInt 1)]], HObs true [[(VInt 1)]] []);
      (SIns TC [[(VInt 1); (VInt 1)]], HObs true [[(VInt 1)]] [[(VInt 1); (VInt 1)]]);
      (SDel TC None, HObs true [[(VInt 1)]] []);
-     (SDel TP None, HObs false [[(VInt 1)]] [])].
+     (SDel TP None, HObs true [] [])].
 Definition wit_17 : case :=
   Hist (mkSch [(mkCol 1 false None None); (mkCol 2 false None None)] [(mkCol 1 false None None); (mkCol 0 false None (Some (mkFk 1 1)))]) [(SIns TP [[(VInt 1); VNull]], HObs true [[(VInt 1); VNull]] []);
      (SIns TC [[(VInt 1); VNull]], HObs true [[(VInt 1); VNull]] [[(VInt 1); VNull]]);
-     (SDel TP None, HObs false [[(VInt 1); VNull]] [[(VInt 1); VNull]])].
+     (SDel TP None, HObs true [] [[(VInt 1); VNull]])].
 Definition wit_18 : case :=
   Hist (mkSch [(mkCol 1 false None None); (mkCol 0 false None None)] [(mkCol 1 false None None); (mkCol 0 false None (Some (mkFk 1 0)))]) [(SIns TP [[(VInt 1); (VInt 5)]], HObs true [[(VInt 1); (VInt 5)]] []);
      (SDel TP None, HObs true [] []);
-     (SIns TC [[(VInt 1); (VInt 5)]], HObs true [] [[(VInt 1); (VInt 5)]])].
+     (SIns TC [[(VInt 1); (VInt 5)]], HObs false [] [])].
 Definition wit_19 : case :=
   Hist (mkSch [(mkCol 1 false None None)] [(mkCol 1 false None None); (mkCol 0 false None (Some (mkFk 0 2)))]) [(SIns TP [[(VInt 1)]], HObs true [[(VInt 1)]] []);
      (SIns TC [[(VInt 1); (VInt 1)]], HObs true [[(VInt 1)]] [[(VInt 1); (VInt 1)]]);
      (SDel TP None, HObs true [] []);
      (SIns TP [[(VInt 1)]], HObs true [[(VInt 1)]] []);
-     (SIns TC [[(VInt 1); (VInt 1)]], HObs false [[(VInt 1)]] [])].
+     (SIns TC [[(VInt 1); (VInt 1)]], HObs true [[(VInt 1)]] [[(VInt 1); (VInt 1)]])].
 
 Definition refutes (k : Z) (c : case) : Prop := known_class c = k /\ model_agrees c = true /\ spec_ok c = false.
+Definition repaired (c : case) : Prop := known_class c = 0 /\ model_agrees c = true /\ spec_ok c = true.
 
 Lemma refuted_1 : refutes 1 wit_1.
 Proof. vm_compute. repeat split. Qed.
@@ -72,31 +76,37 @@ Lemma refuted_4 : refutes 4 wit_4.
 Proof. vm_compute. repeat split. Qed.
 Lemma refuted_10 : refutes 10 wit_10.
 Proof. vm_compute. repeat split. Qed.
-Lemma refuted_11 : refutes 11 wit_11.
-Proof. vm_compute. repeat split. Qed.
-Lemma refuted_12 : refutes 12 wit_12.
-Proof. vm_compute. repeat split. Qed.
-Lemma refuted_13 : refutes 13 wit_13.
-Proof. vm_compute. repeat split. Qed.
-Lemma refuted_14 : refutes 14 wit_14.
-Proof. vm_compute. repeat split. Qed.
 Lemma refuted_15 : refutes 15 wit_15.
 Proof. vm_compute. repeat split. Qed.
-Lemma refuted_16 : refutes 16 wit_16.
+Lemma repaired_11 : repaired wit_11.
 Proof. vm_compute. repeat split. Qed.
-Lemma refuted_17 : refutes 17 wit_17.
+Lemma repaired_12 : repaired wit_12.
 Proof. vm_compute. repeat split. Qed.
-Lemma refuted_18 : refutes 18 wit_18.
+Lemma repaired_13 : repaired wit_13.
 Proof. vm_compute. repeat split. Qed.
-Lemma refuted_19 : refutes 19 wit_19.
+Lemma repaired_14 : repaired wit_14.
+Proof. vm_compute. repeat split. Qed.
+Lemma repaired_16 : repaired wit_16.
+Proof. vm_compute. repeat split. Qed.
+Lemma repaired_17 : repaired wit_17.
+Proof. vm_compute. repeat split. Qed.
+Lemma repaired_18 : repaired wit_18.
+Proof. vm_compute. repeat split. Qed.
+Lemma repaired_19 : repaired wit_19.
 Proof. vm_compute. repeat split. Qed.
 
 Lemma constraints_refuted_l :
   refutes 1 wit_1 /\ refutes 2 wit_2 /\ refutes 3 wit_3 /\ refutes 4 wit_4 /\ refutes 10 wit_10 /\
-  refutes 11 wit_11 /\ refutes 12 wit_12 /\ refutes 13 wit_13 /\ refutes 14 wit_14 /\ refutes 15 wit_15 /\
-  refutes 16 wit_16 /\ refutes 17 wit_17 /\ refutes 18 wit_18 /\ refutes 19 wit_19.
+  refutes 15 wit_15.
 Proof.
   repeat split; first [apply refuted_1|apply refuted_2|apply refuted_3|apply refuted_4|apply refuted_10|
-    apply refuted_11|apply refuted_12|apply refuted_13|apply refuted_14|apply refuted_15|apply refuted_16|
-    apply refuted_17|apply refuted_18|apply refuted_19].
+    apply refuted_15].
+Qed.
+
+Lemma former_classes_repaired_l :
+  repaired wit_11 /\ repaired wit_12 /\ repaired wit_13 /\ repaired wit_14 /\
+  repaired wit_16 /\ repaired wit_17 /\ repaired wit_18 /\ repaired wit_19.
+Proof.
+  repeat split; first [apply repaired_11|apply repaired_12|apply repaired_13|apply repaired_14|
+    apply repaired_16|apply repaired_17|apply repaired_18|apply repaired_19].
 Qed.
